@@ -1,6 +1,7 @@
 import SamVerif.Lemmas.FmtEval
 import SamVerif.Lemmas.Fmt
 import SamVerif.Lemmas.FmtPat
+import SamVerif.Model.FmtLists
 /-!
 # C08 — Formatting a file never changes the program it denotes (expression / literal fragment)
 
@@ -302,6 +303,22 @@ example : eval Iex (.binary .plus a (.binary .plus b c)) = ([0, 1, 2], some (.in
 example : parseE [.lp, .atom 0, .op .plus, .atom 1, .rp] = some (.binary .plus a b) := by decide
 
 end SamVerif.FmtFull
+
+namespace SamVerif.FmtLists
+
+/-! ## Trailing commas of bracketed lists -/
+
+/-- **The printer emits a trailing comma only where the parser accepts one**, for every kind of
+bracketed, comma separated list (the two tables are compared with the real printer and parser by the
+`trail` stream on every run; seed C08e — type arguments parsed with the wrong closing token — makes
+the parser's table differ). -/
+theorem trailing_comma_emitted_only_where_accepted (k : ListKind) :
+    printerEmitsTrailing k = true → parserAcceptsTrailing k = true := by
+  cases k <;> decide
+
+theorem allKinds_complete (k : ListKind) : k ∈ allKinds := by cases k <;> decide
+
+end SamVerif.FmtLists
 
 namespace SamVerif.FmtPat
 
